@@ -379,7 +379,7 @@ macro_rules! c04_resized {
 c04_resized!(c04_resized_se256_128_64, quick, 8, se256_nosel, 2, 128, 64);
 c04_resized!(c04_resized_simple_128_64, quick, 8, simple, 2, 128, 64);
 c04_resized!(c04_resized_il_128_64, quick, 8, il_nocache, 2, 128, 64);
-c04_resized!(c04_resized_se512_192_70, thorough, 8, se512_nosel, 3, 192, 70);
+c04_resized!(c04_resized_se512_192_70, thorough, 10, se512_nosel, 3, 192, 70);
 
 // ------------------------------------------------------------------------------------------ block structures
 
@@ -492,23 +492,23 @@ c04_rs!(c04_il_nocache_rank_l130, quick, 8, il_nocache, check_rank, 3, 130, 1, A
 c04_rs!(c04_il_nocache_rank_l256, quick, 8, il_nocache, check_rank, 4, 256, 2, TOP16, 3, TOP16, MIX);
 c04_rs!(c04_il_nocache_sel1_l130, quick, 70, il_nocache, check_select1, 3, 130, 1, TOP16, 2, ALL, 0u64);
 c04_rs!(c04_il_nocache_sel0_l130, quick, 70, il_nocache, check_select0, 3, 130, 1, TOP16, 2, ALL, ALL);
-c04_rs!(c04_t_il_cache_sel1_l10, thorough, 14, il_cache, check_select1, 1, 10, 0, 0x3FFu64, 9, NONE, 0u64);
-c04_rs!(c04_t_il_cache_sel1_l20, thorough, 25, il_cache, check_select1, 1, 20, 0, 0xFFFFFu64, 9, NONE, 0u64);
-c04_rs!(c04_t_il_cache_sel1_l70, thorough, 75, il_cache, check_select1, 2, 70, 0, TOP8, 1, ALL, 0u64);
-c04_rs!(c04_t_il_cache_sel1_l600_concrete, thorough, 605, il_cache8, check_select1, 10, 600, 99, NONE, 99, NONE, MIX);
-c04_rs!(c04_t_il_cache_sel1_l130, thorough, 135, il_cache, check_select1, 3, 130, 1, TOP16, 2, ALL, 0u64);
-c04_rs!(c04_t_il_cache8_sel1_l130, thorough, 135, il_cache8, check_select1, 3, 130, 1, TOP8, 2, ALL, MIX);
+c04_rs!(c04_t_il_cache_sel1_l10, probe, 14, il_cache, check_select1, 1, 10, 0, 0x3FFu64, 9, NONE, 0u64);
+c04_rs!(c04_t_il_cache_sel1_l20, probe, 25, il_cache, check_select1, 1, 20, 0, 0xFFFFFu64, 9, NONE, 0u64);
+c04_rs!(c04_t_il_cache_sel1_l70, probe, 75, il_cache, check_select1, 2, 70, 0, TOP8, 1, ALL, 0u64);
+c04_rs!(c04_t_il_cache_sel1_l600_concrete, probe, 605, il_cache8, check_select1, 10, 600, 99, NONE, 99, NONE, MIX);
+c04_rs!(c04_t_il_cache_sel1_l130, probe, 135, il_cache, check_select1, 3, 130, 1, TOP16, 2, ALL, 0u64);
+c04_rs!(c04_t_il_cache8_sel1_l130, probe, 135, il_cache8, check_select1, 3, 130, 1, TOP8, 2, ALL, MIX);
 c04_rs!(c04_il_perf_rank_l130, quick, 8, il_nocache, check_il_perf, 3, 130, 1, TOP16, 2, ALL, MIX);
-c04_rs!(c04_t_il_perf_sel1_l40, thorough, 70, il_cache, check_il_perf_select, 1, 40, 0, 0xFF_0000_00FFu64, 9, NONE, 0u64);
-c04_rs!(c04_t_il_perf_sel1_l70, thorough, 75, il_cache, check_il_perf_select, 2, 70, 0, TOP8, 1, ALL, 0u64);
+c04_rs!(c04_t_il_perf_sel1_l40, probe, 70, il_cache, check_il_perf_select, 1, 40, 0, 0xFF_0000_00FFu64, 9, NONE, 0u64);
+c04_rs!(c04_t_il_perf_sel1_l70, probe, 75, il_cache, check_il_perf_select, 2, 70, 0, TOP8, 1, ALL, 0u64);
 // --- side-entry 256 / 512, simple
 c04_rs!(c04_se256_rank_l256, quick, 8, se256_nosel, check_rank, 4, 256, 2, TOP16, 3, TOP16, MIX);
 c04_rs!(c04_se256_sel1_l130, quick, 70, se256_nosel, check_select1, 3, 130, 1, TOP16, 2, ALL, 0u64);
 c04_rs!(c04_se256_sel0_l130, quick, 70, se256_nosel, check_select0, 3, 130, 1, TOP16, 2, ALL, ALL);
-c04_rs!(c04_t_se256c_sel1_l600_concrete, thorough, 70, se256, check_select1, 10, 600, 99, NONE, 99, NONE, ALT);
-c04_rs!(c04_t_se256c_sel0_l600_concrete, thorough, 70, se256, check_select0, 10, 600, 99, NONE, 99, NONE, MIX);
-c04_rs!(c04_t_se512c_sel1_l1100_concrete, thorough, 70, se512, check_select1, 18, 1100, 99, NONE, 99, NONE, ALT);
-c04_rs!(c04_t_se256c_sel1_l130, thorough, 70, se256, check_select1, 3, 130, 1, TOP8, 2, ALL, 0u64);
+c04_rs!(c04_t_se256c_sel1_l600_concrete, probe, 70, se256, check_select1, 10, 600, 99, NONE, 99, NONE, ALT);
+c04_rs!(c04_t_se256c_sel0_l600_concrete, probe, 70, se256, check_select0, 10, 600, 99, NONE, 99, NONE, MIX);
+c04_rs!(c04_t_se512c_sel1_l1100_concrete, probe, 70, se512, check_select1, 18, 1100, 99, NONE, 99, NONE, ALT);
+c04_rs!(c04_t_se256c_sel1_l130, probe, 70, se256, check_select1, 3, 130, 1, TOP8, 2, ALL, 0u64);
 c04_rs!(c04_se512_rank_l512, quick, 10, se512_nosel, check_rank, 8, 512, 6, TOP16, 7, TOP16, MIX);
 c04_rs!(c04_se512_sel1_l130, quick, 70, se512_nosel, check_select1, 3, 130, 1, TOP16, 2, ALL, 0u64);
 c04_rs!(c04_simple_rank_l257, quick, 8, simple, check_rank, 5, 257, 3, TOP16, 4, ALL, MIX);
@@ -517,15 +517,15 @@ c04_rs!(c04_simple_sel0_l130, quick, 70, simple, check_select0, 3, 130, 1, TOP16
 // --- thorough: two fully symbolic words, longer strings, select tables on
 c04_rs!(c04_t_il_nocache_rank_l257, thorough, 8, il_nocache, check_rank, 5, 257, 3, ALL, 4, ALL, MIX);
 c04_rs!(c04_t_il_nocache_sel0_l257, thorough, 70, il_nocache, check_select0, 5, 257, 3, ALL, 4, ALL, MIX);
-c04_rs!(c04_t_il_cache_sel1_l257, thorough, 262, il_cache, check_select1, 5, 257, 3, ALL, 4, ALL, MIX);
+c04_rs!(c04_t_il_cache_sel1_l257, probe, 262, il_cache, check_select1, 5, 257, 3, ALL, 4, ALL, MIX);
 c04_rs!(c04_t_se256c_rank_l130, thorough, 8, se256, check_rank, 3, 130, 1, ALL, 2, ALL, ALL);
-c04_rs!(c04_t_se256c_sel0_l513, thorough, 70, se256, check_select0, 9, 513, 7, ALL, 8, ALL, 0u64);
-c04_rs!(c04_t_se256c_sel1_l513, thorough, 70, se256, check_select1, 9, 513, 7, ALL, 8, ALL, ALL);
-c04_rs!(c04_t_se512c_sel0_l1025, thorough, 70, se512, check_select0, 17, 1025, 15, ALL, 16, ALL, 0u64);
-c04_rs!(c04_t_se512c_sel1_l1025, thorough, 70, se512, check_select1, 17, 1025, 15, ALL, 16, ALL, ALL);
+c04_rs!(c04_t_se256c_sel0_l513, probe, 70, se256, check_select0, 9, 513, 7, ALL, 8, ALL, 0u64);
+c04_rs!(c04_t_se256c_sel1_l513, probe, 70, se256, check_select1, 9, 513, 7, ALL, 8, ALL, ALL);
+c04_rs!(c04_t_se512c_sel0_l1025, probe, 70, se512, check_select0, 17, 1025, 15, ALL, 16, ALL, 0u64);
+c04_rs!(c04_t_se512c_sel1_l1025, probe, 70, se512, check_select1, 17, 1025, 15, ALL, 16, ALL, ALL);
 c04_rs!(c04_t_se512_rank_l513, thorough, 12, se512_nosel, check_rank, 9, 513, 7, ALL, 8, ALL, MIX);
 c04_rs!(c04_t_simple_sel1_l130, thorough, 70, simple, check_select1, 3, 130, 1, ALL, 2, ALL, 0u64);
-c04_rs!(c04_t_simple_sel0_l257, thorough, 70, simple, check_select0, 5, 257, 3, ALL, 4, ALL, MIX);
+c04_rs!(c04_t_simple_sel0_l257, probe, 70, simple, check_select0, 5, 257, 3, ALL, 4, ALL, MIX);
 
 // ------------------------------------------------------------------------------------------ mixed (two dimensions)
 
@@ -719,13 +719,13 @@ c04_few!(c04_few_one_sel1_np3, quick, 10, few_sel1::<3, RankSelectFewOne, 70>);
 c04_few!(c04_few_zero_rank_np3, quick, 10, few_rank::<3, RankSelectFewZero, 70>);
 c04_few!(c04_few_zero_sel1_np3, quick, 10, few_sel1::<3, RankSelectFewZero, 70>);
 c04_few!(c04_few_zero_sel0_np3, quick, 10, few_sel0::<3, RankSelectFewZero, 70>);
-c04_few!(c04_t_few_one_sel0_np5, thorough, 14, few_sel0::<5, RankSelectFewOne, 1000>);
+c04_few!(c04_t_few_one_sel0_np5, probe, 14, few_sel0::<5, RankSelectFewOne, 1000>);
 c04_few!(c04_t_few_zero_sel1_np5, thorough, 14, few_sel1::<5, RankSelectFewZero, 1000>);
 
 zv_harness! {
     name: c04_few_from_bitvector_l20,
     prop: "C04",
-    tier: thorough,
+    tier: probe,
     unwind: 24,
     stubs: [alloc::fmt::format => crate::common::stubs::fmt_format,
             std::arch::x86_64::__cpuid_count => crate::common::stubs::cpuid_zero],
@@ -854,8 +854,8 @@ c04_bulk!(c04_bulk_rank_interior_scalar, quick, 8, crate::c04_rankselect::cpu_no
 c04_bulk!(c04_bulk_rank_uptolen_scalar, quick, 8, crate::c04_rankselect::cpu_none, bulk_rank_upto_len::<2>);
 c04_bulk!(c04_bulk_rank_interior_bmi2, quick, 8, crate::c04_rankselect::cpu_bmi2, bulk_rank_interior::<2>);
 c04_bulk!(c04_bulk_select_scalar, quick, 70, crate::c04_rankselect::cpu_none, bulk_select_case::<2>);
-c04_bulk!(c04_t_bulk_select_bmi2_w1, thorough, 70, crate::c04_rankselect::cpu_bmi2, bulk_select_case::<1>);
-c04_bulk!(c04_t_bulk_select_bmi2_w2, thorough, 70, crate::c04_rankselect::cpu_bmi2, bulk_select_case::<2>);
+c04_bulk!(c04_t_bulk_select_bmi2_w1, probe, 70, crate::c04_rankselect::cpu_bmi2, bulk_select_case::<1>);
+c04_bulk!(c04_t_bulk_select_bmi2_w2, probe, 70, crate::c04_rankselect::cpu_bmi2, bulk_select_case::<2>);
 
 // ------------------------------------------------------------------------------------------ adaptive (forwards to the interleaved structure after profiling the data)
 
@@ -885,5 +885,5 @@ macro_rules! c04_adaptive {
         }
     };
 }
-c04_adaptive!(c04_t_adaptive_rank_l12, thorough, 16, check_rank, 12, 0xFFFu64);
-c04_adaptive!(c04_t_adaptive_sel1_l12, thorough, 70, check_select1, 12, 0xFFFu64);
+c04_adaptive!(c04_t_adaptive_rank_l12, probe, 16, check_rank, 12, 0xFFFu64);
+c04_adaptive!(c04_t_adaptive_sel1_l12, probe, 70, check_select1, 12, 0xFFFu64);
